@@ -1,6 +1,6 @@
 SPECIFICATION TraceSpec
 CONSTANT Programs <- TracePrograms
-INVARIANT NoErr
+CONSTANT Focus <- AllGroups
 INVARIANT Coverage
 POSTCONDITION TraceAccepted
 CHECK_DEADLOCK FALSE
